@@ -11,7 +11,7 @@ use std::cell::Cell;
 use std::io::{self, ErrorKind, Read};
 
 pub fn subs() -> Vec<Sub> {
-    vec![Sub { name: "scripts", run: run_scripts }, Sub { name: "files", run: run_files }]
+    vec![Sub { name: "scripts", run: run_scripts }, Sub { name: "files", run: run_files }, Sub { name: "huge", run: run_huge }]
 }
 
 #[derive(Debug, Clone, PartialEq, Eq, serde::Serialize, serde::Deserialize)]
@@ -328,6 +328,48 @@ fn run_scripts(ctx: &Ctx) -> CheckResult {
     Ok(())
 }
 
+/// Streams and files beyond the 4,224,281,216-byte mark (one pass each, ~40 s, concurrent): a
+/// hard error reported after the mark is still returned as an I/O error; a stream / a sparse
+/// file of MAX + 1 bytes is too large, of exactly MAX bytes it is not (shared with C11).
+fn run_huge(ctx: &Ctx) -> CheckResult {
+    let caps = ctx.api.caps();
+    if !(caps.easy && caps.std) {
+        ctx.skipped("huge: stream helpers not compiled");
+        return Ok(());
+    }
+    let quick = ctx.tier == crate::ctx::Tier::Quick;
+    if quick && ctx.config != "default" {
+        ctx.skipped("huge: quick tier runs it in the default configuration only");
+        return Ok(());
+    }
+    let vs = ctx.api.variants();
+    let mut jobs: Vec<(usize, u8)> = Vec::new();
+    if quick {
+        jobs.push(((ctx.seed % vs.len() as u64) as usize, 0));
+        jobs.push((((ctx.seed + 2) % vs.len() as u64) as usize, 1));
+    } else {
+        for i in 0..vs.len() {
+            jobs.extend([(i, 0u8), (i, 1), (i, 2), (i, 3)]);
+        }
+    }
+    let res = super::common::par_map(ctx.threads, &jobs, |&(i, k)| match k {
+        0 => super::c11::case_hugestream_error(vs[i]),
+        1 => super::c11::case_hugefile(vs[i], 1),
+        2 => super::c11::case_hugefile(vs[i], 0),
+        _ => super::c11::case_hugestream(vs[i], 1),
+    });
+    for (&(i, k), r) in jobs.iter().zip(res) {
+        ctx.ev.borrow_mut().evaluations += 1;
+        ctx.ev.borrow_mut().nontrivial_enumerated += 1;
+        if let Err(m) = r {
+            return Err(ctx.violation("huge", m, json!({"variant": vs[i].v().name, "kind": k})));
+        }
+    }
+    ctx.subcheck("huge", jobs.len() as u64);
+    ctx.ev.borrow_mut().sample(json!({"check": "huge", "jobs": jobs.len(), "kinds": "0 stream of MAX+4096 bytes then a hard error; 1 sparse file of MAX+1; 2 sparse file of MAX; 3 stream of MAX+1 with a read ending at MAX"}));
+    Ok(())
+}
+
 pub fn case_file(api: &dyn GlobalApi, va: &dyn VariantApi, size: usize, seed: u64, st: &CaseStats) -> Result<(), String> {
     let v = va.v();
     let dir = std::env::var("VERIF_SCRATCH").unwrap_or_else(|_| "/verif/build/tmp".into());
@@ -487,6 +529,15 @@ pub fn case_special_files(va: &dyn VariantApi, seed: u64, st: &CaseStats) -> Res
 }
 
 pub fn replay(ctx: &Ctx, check: &str, case: &Value) -> Result<(), String> {
+    if check == "huge" {
+        let va = super::codec::variant_of(ctx.api, case)?;
+        return match case.get("kind").and_then(|x| x.as_u64()).unwrap_or(0) {
+            0 => super::c11::case_hugestream_error(va),
+            1 => super::c11::case_hugefile(va, 1),
+            2 => super::c11::case_hugefile(va, 0),
+            _ => super::c11::case_hugestream(va, 1),
+        };
+    }
     let live = Cell::new(true);
     let st = ctx.stats("replay", &live);
     let va = super::codec::variant_of(ctx.api, case)?;
